@@ -930,3 +930,292 @@ Proof.
   unfold strip_ok in H. destruct (strip_order dims eltsz buf) as [l|]; [|discriminate].
   apply str_eqb_eq in H. rewrite H. reflexivity.
 Qed.
+
+(** * The option table answers lookups with the last request naming the object *)
+Lemma str_eqb_spec : forall a b, str_eqb a b = true <-> a = b.
+Proof. intros; split; [apply str_eqb_eq | intro; subst; apply str_eqb_refl]. Qed.
+
+Lemma str_eqb_false : forall a b, str_eqb a b = false <-> a <> b.
+Proof.
+  intros a b. split.
+  - intros H E. subst. rewrite str_eqb_refl in H. discriminate.
+  - intro H. destruct (str_eqb a b) eqn:E; [apply str_eqb_eq in E; contradiction | reflexivity].
+Qed.
+
+Lemma str_dec : forall a b : str, {a = b} + {a <> b}.
+Proof. intros. destruct (str_eqb a b) eqn:E; [left; apply str_eqb_eq; exact E | right; apply str_eqb_false; exact E]. Qed.
+
+Lemma existsb_str : forall p names, existsb (str_eqb p) names = true <-> In p names.
+Proof.
+  intros. rewrite existsb_exists. split.
+  - intros [x [Hin He]]. apply str_eqb_eq in He. subst. exact Hin.
+  - intro H. exists p. split; [exact H | apply str_eqb_refl].
+Qed.
+
+Lemma lookup_app : forall p a b, lookup p (a ++ b) = match lookup p a with Some e => Some e | None => lookup p b end.
+Proof. induction a as [|e a IH]; intro b; simpl; [reflexivity|]. destruct (str_eqb (p_path e) p); [reflexivity|apply IH]. Qed.
+
+Lemma lookup_path : forall p t e, lookup p t = Some e -> p_path e = p.
+Proof.
+  induction t as [|x t IH]; intros e H; simpl in H; [discriminate|].
+  destruct (str_eqb (p_path x) p) eqn:E; [inversion H; subst; apply str_eqb_eq; exact E | apply IH; exact H].
+Qed.
+
+Section generic_loop.
+  Variables (refuse : pack -> bool) (setf : pack -> pack) (mk : str -> pack).
+  Hypothesis setf_path : forall e, p_path (setf e) = p_path e.
+  Hypothesis mk_path : forall n, p_path (mk n) = n.
+
+  Lemma upd_none : forall n t, upd_entry refuse setf n t = None -> lookup n t = None.
+  Proof.
+    induction t as [|e t IH]; intro H; simpl in *; [reflexivity|].
+    destruct (str_eqb n (p_path e)) eqn:E.
+    - destruct (refuse e); discriminate.
+    - assert (E' : str_eqb (p_path e) n = false).
+      { apply str_eqb_false. apply str_eqb_false in E. congruence. }
+      rewrite E'. apply IH. destruct (upd_entry refuse setf n t) as [[?|]|]; try discriminate. reflexivity.
+  Qed.
+
+  Lemma upd_some : forall n t t', upd_entry refuse setf n t = Some (Some t') ->
+    (forall p, p <> n -> lookup p t' = lookup p t) /\
+    (exists e, lookup n t = Some e /\ lookup n t' = Some (setf e)).
+  Proof.
+    induction t as [|e t IH]; intros t' H; simpl in H; [discriminate|].
+    destruct (str_eqb n (p_path e)) eqn:E.
+    - destruct (refuse e); [discriminate|]. inversion H; subst; clear H.
+      apply str_eqb_eq in E. split.
+      + intros p Hp. simpl. rewrite setf_path.
+        assert (X : str_eqb (p_path e) p = false) by (apply str_eqb_false; congruence). rewrite X. reflexivity.
+      + exists e. simpl. rewrite setf_path. rewrite <- E. rewrite str_eqb_refl. auto.
+    - destruct (upd_entry refuse setf n t) as [[t''|]|] eqn:U; try discriminate.
+      inversion H; subst; clear H. destruct (IH t'' eq_refl) as [I1 [e0 [I2 I3]]].
+      assert (E' : str_eqb (p_path e) n = false).
+      { apply str_eqb_false. apply str_eqb_false in E. congruence. }
+      split.
+      + intros p Hp. simpl. destruct (str_eqb (p_path e) p); [reflexivity | apply I1; exact Hp].
+      + exists e0. simpl. rewrite E'. auto.
+  Qed.
+
+  (** [Q p e]: the entry found for a name of the list is either a fresh one or an updated one *)
+  Definition fresh_or_set (p : str) (e : pack) : Prop := e = mk p \/ exists e0, e = setf e0.
+
+  Lemma add_loop_spec : forall names t added T,
+    add_loop refuse setf mk names t added = Some T ->
+    Forall (fun e => e = mk (p_path e)) added ->
+    (forall p, ~ In p names -> lookup p T = lookup p (t ++ rev added)) /\
+    (forall p, In p names -> exists e, lookup p T = Some e /\ fresh_or_set p e) /\
+    (forall p e, lookup p t = Some e -> exists e', lookup p T = Some e' /\ (e' = e \/ exists e0, e' = setf e0 /\ p_path e0 = p)) /\
+    (forall p e, lookup p T = Some e -> (exists e1, lookup p (t ++ rev added) = Some e1) \/ In p names).
+  Proof.
+    induction names as [|n r IH]; intros t added T H Hadd.
+    - simpl in H. inversion H; subst; clear H. split; [auto|]. split; [intros p []|]. split.
+      + intros p e Hl. exists e. rewrite lookup_app, Hl. auto.
+      + intros p e Hl. left. eauto.
+    - simpl in H. destruct (upd_entry refuse setf n t) as [[t'|]|] eqn:U; [|discriminate|].
+      + (* updated in place *)
+        destruct (upd_some _ _ _ U) as [U1 [e0 [U2 U3]]].
+        destruct (IH _ _ _ H Hadd) as [I1 [I2 [I3 I4]]].
+        split; [|split; [|split]].
+        * intros p Hp. rewrite I1 by (intro X; apply Hp; right; exact X).
+          rewrite !lookup_app. rewrite U1; [reflexivity|]. intro X. apply Hp. left. congruence.
+        * intros p [Hp|Hp].
+          -- subst p. destruct (I3 _ _ U3) as [e' [L [Eq|[e1 [Eq _]]]]].
+             ++ exists e'. split; [exact L|]. right. exists e0. exact Eq.
+             ++ exists e'. split; [exact L|]. right. exists e1. exact Eq.
+          -- apply I2. exact Hp.
+        * intros p e Hl. destruct (str_dec p n) as [E|E].
+          -- subst p. rewrite U2 in Hl. inversion Hl; subst e0.
+             destruct (I3 _ _ U3) as [e' [L [Eq|[e1 [Eq Pp]]]]].
+             ++ exists e'. split; [exact L|]. right. exists e. split; [exact Eq|]. eapply lookup_path; eauto.
+             ++ exists e'. split; [exact L|]. right. exists e1. auto.
+          -- rewrite <- (U1 p E) in Hl. apply I3. exact Hl.
+        * intros p e Hl. destruct (I4 _ _ Hl) as [[e1 L]|Hin]; [|right; right; exact Hin].
+          destruct (str_dec p n) as [E|E]; [right; left; congruence|].
+          left. rewrite lookup_app in L. rewrite (U1 p E) in L. rewrite lookup_app. eauto.
+      + (* appended *)
+        pose proof (upd_none _ _ U) as N.
+        assert (Hadd' : Forall (fun e => e = mk (p_path e)) (mk n :: added)).
+        { constructor; [rewrite mk_path; reflexivity | exact Hadd]. }
+        destruct (IH _ _ _ H Hadd') as [I1 [I2 [I3 I4]]].
+        assert (LK : forall p, p <> n -> lookup p (t ++ rev (mk n :: added)) = lookup p (t ++ rev added)).
+        { intros p Hp. rewrite !lookup_app. destruct (lookup p t); [reflexivity|]. simpl rev. rewrite lookup_app.
+          destruct (lookup p (rev added)); [reflexivity|]. simpl. rewrite mk_path.
+          assert (X : str_eqb n p = false) by (apply str_eqb_false; congruence). rewrite X. reflexivity. }
+        split; [|split; [|split]].
+        * intros p Hp. rewrite I1 by (intro X; apply Hp; right; exact X). apply LK. intro X. apply Hp. left. congruence.
+        * intros p [Hp|Hp]; [|apply I2; exact Hp]. subst p.
+          destruct (in_dec str_dec n r) as [Hin|Hnin]; [apply I2; exact Hin|].
+          rewrite (I1 _ Hnin). rewrite lookup_app, N. simpl rev. rewrite lookup_app.
+          destruct (lookup n (rev added)) as [e1|] eqn:L1.
+          -- exists e1. split; [reflexivity|]. left.
+             assert (In e1 (rev added)).
+             { clear -L1. induction (rev added) as [|x l IHl]; simpl in L1; [discriminate|].
+               destruct (str_eqb (p_path x) n); [inversion L1; left; reflexivity | right; apply IHl; exact L1]. }
+             rewrite Forall_forall in Hadd. rewrite (Hadd e1 ltac:(apply in_rev; exact H0)).
+             rewrite (lookup_path _ _ _ L1). reflexivity.
+          -- exists (mk n). simpl. rewrite mk_path, str_eqb_refl. split; [reflexivity | left; reflexivity].
+        * intros p e Hl. apply I3. exact Hl.
+        * intros p e Hl. destruct (I4 _ _ Hl) as [[e1 L]|Hin]; [|right; right; exact Hin].
+          destruct (str_dec p n) as [E|E]; [right; left; congruence|].
+          left. rewrite (LK p E) in L. eauto.
+  Qed.
+
+  Lemma add_loop_nil : forall names added,
+    add_loop refuse setf mk names [] added = Some (rev added ++ map mk names).
+  Proof.
+    induction names as [|n r IH]; intro added; simpl.
+    - rewrite app_nil_r. reflexivity.
+    - rewrite IH. simpl. rewrite <- app_assoc. reflexivity.
+  Qed.
+
+  (** a field the update does not touch is kept for every entry that was in the table *)
+  Section kept_field.
+    Variables (A : Type) (f : pack -> A).
+    Hypothesis f_setf : forall e, f (setf e) = f e.
+    Lemma add_loop_keeps : forall names t added T p e,
+      add_loop refuse setf mk names t added = Some T -> lookup p t = Some e ->
+      exists e', lookup p T = Some e' /\ f e' = f e.
+    Proof.
+      induction names as [|n r IH]; intros t added T p e H Hl; simpl in H.
+      - inversion H; subst. exists e. rewrite lookup_app, Hl. auto.
+      - destruct (upd_entry refuse setf n t) as [[t'|]|] eqn:U; [|discriminate|].
+        + destruct (upd_some _ _ _ U) as [U1 [e0 [U2 U3]]].
+          destruct (str_dec p n) as [E|E].
+          * subst p. rewrite U2 in Hl. inversion Hl; subst e0.
+            destruct (IH _ _ _ _ _ H U3) as [e' [L F]]. exists e'. split; [exact L|]. rewrite F. apply f_setf.
+          * rewrite <- (U1 p E) in Hl. eapply IH; eauto.
+        + eapply IH; eauto.
+    Qed.
+  End kept_field.
+End generic_loop.
+
+
+Lemma add_comp_is_loop : forall names c t, add_comp names c t = add_loop has_comp (set_comp_of c) (mk_comp c) names t [].
+Proof. intros. destruct t; [|reflexivity]. simpl. rewrite add_loop_nil. reflexivity. Qed.
+
+Lemma add_chunk_is_loop : forall names k t, add_chunk names k t = add_loop has_chunk (set_chunk_of k) (mk_chunk k) names t [].
+Proof. intros. destruct t; [|reflexivity]. simpl. rewrite add_loop_nil. reflexivity. Qed.
+
+Definition RC (o : options) (p : str) (acc : option (Z * Z)) : Prop :=
+  match acc with Some (t, i) => tbl_req_comp o p = Some {| c_type := t; c_info := i |} | None => True end.
+Definition RK (o : options) (p : str) (acc : option (Z * list Z)) : Prop :=
+  match acc with Some (r, l) => tbl_req_chunk o p = Some {| k_rank := r; k_lens := l |} | None => True end.
+
+Lemma mentions_star : forall p names, has_star names = true -> mentions p names = true.
+Proof. intros p names H. unfold mentions. unfold has_star in H. rewrite H. apply orb_true_r. Qed.
+
+Lemma mentions_nostar : forall p names, has_star names = false -> mentions p names = existsb (str_eqb p) names.
+Proof. intros p names H. unfold mentions. unfold has_star in H. rewrite H. apply orb_false_r. Qed.
+
+Lemma addcomp_step : forall e o o' p accc acck,
+  addcomp e o = Some o' -> RC o p accc -> RK o p acck ->
+  RC o' p (if mentions p (ce_names e) then Some (ce_type e, ce_info e) else accc) /\ RK o' p acck /\
+  (tbl_named o' p = true -> tbl_named o p = true \/ existsb (str_eqb p) (ce_names e) = true) /\ threshold o' = threshold o.
+Proof.
+  intros e o o' p accc acck H HC HK. unfold addcomp in H.
+  destruct (all_comp o) eqn:Eac; [discriminate|].
+  destruct (has_star (ce_names e)) eqn:Es.
+  - destruct (1 <? zlen (ce_names e)); [discriminate|]. inversion H; subst; clear H.
+    rewrite (mentions_star _ _ Es). split; [reflexivity|]. split.
+    { destruct acck as [[r l]|]; [|exact I]. exact HK. }
+    split; [auto | reflexivity].
+  - rewrite add_comp_is_loop in H.
+    destruct (add_loop has_comp (set_comp_of (Build_compinfo (ce_type e) (ce_info e))) (mk_comp (Build_compinfo (ce_type e) (ce_info e))) (ce_names e) (tbl o) []) as [T|] eqn:L; [|discriminate].
+    inversion H; subst; clear H.
+    destruct (add_loop_spec has_comp (set_comp_of (Build_compinfo (ce_type e) (ce_info e))) (mk_comp (Build_compinfo (ce_type e) (ce_info e))) (fun _ => eq_refl) (fun _ => eq_refl) _ _ _ _ L (Forall_nil _)) as [I1 [I2 [_ I4]]].
+    rewrite (mentions_nostar _ _ Es).
+    split; [|split; [|split; [|reflexivity]]].
+    + destruct (existsb (str_eqb p) (ce_names e)) eqn:Ein.
+      * apply existsb_str in Ein. destruct (I2 _ Ein) as [e1 [L1 Q]].
+        unfold RC, tbl_req_comp. simpl. rewrite L1. f_equal.
+        destruct Q as [Q|[e0 Q]]; subst e1; reflexivity.
+      * assert (Hn : ~ In p (ce_names e)) by (intro X; apply existsb_str in X; congruence).
+        destruct accc as [[t i]|]; [|exact I]. unfold RC, tbl_req_comp in *. simpl. rewrite Eac in HC.
+        rewrite (I1 _ Hn). rewrite app_nil_r. exact HC.
+    + destruct acck as [[r l]|]; [|exact I]. unfold RK, tbl_req_chunk in *. simpl.
+      destruct (all_chunk o); [exact HK|].
+      destruct (lookup p (tbl o)) as [e0|] eqn:L0; [|discriminate].
+      destruct (add_loop_keeps has_comp (set_comp_of (Build_compinfo (ce_type e) (ce_info e))) (mk_comp (Build_compinfo (ce_type e) (ce_info e))) (fun _ => eq_refl) _ p_chunk (fun _ => eq_refl) _ _ _ _ _ _ L L0) as [e' [L' F]].
+      rewrite L'. rewrite F. exact HK.
+    + unfold tbl_named. simpl. intro Hn. destruct (lookup p T) as [e1|] eqn:L1; [|discriminate].
+      destruct (I4 _ _ L1) as [[e2 L2]|Hin].
+      * left. rewrite app_nil_r in L2. rewrite L2. reflexivity.
+      * right. apply existsb_str. exact Hin.
+Qed.
+
+Lemma addchunk_step : forall e o o' p accc acck,
+  addchunk e o = Some o' -> RC o p accc -> RK o p acck ->
+  RK o' p (if mentions p (ke_names e) then Some (ke_rank e, ke_lens e) else acck) /\ RC o' p accc /\
+  (tbl_named o' p = true -> tbl_named o p = true \/ existsb (str_eqb p) (ke_names e) = true) /\ threshold o' = threshold o.
+Proof.
+  intros e o o' p accc acck H HC HK. unfold addchunk in H.
+  destruct (all_chunk o) eqn:Eac; [discriminate|].
+  destruct (has_star (ke_names e)) eqn:Es.
+  - destruct (1 <? zlen (ke_names e)); [discriminate|]. inversion H; subst; clear H.
+    rewrite (mentions_star _ _ Es). split; [reflexivity|]. split.
+    { destruct accc as [[t i]|]; [|exact I]. exact HC. }
+    split; [auto | reflexivity].
+  - rewrite add_chunk_is_loop in H.
+    destruct (add_loop has_chunk (set_chunk_of (Build_chunkinfo (ke_rank e) (ke_lens e))) (mk_chunk (Build_chunkinfo (ke_rank e) (ke_lens e))) (ke_names e) (tbl o) []) as [T|] eqn:L; [|discriminate].
+    inversion H; subst; clear H.
+    destruct (add_loop_spec has_chunk (set_chunk_of (Build_chunkinfo (ke_rank e) (ke_lens e))) (mk_chunk (Build_chunkinfo (ke_rank e) (ke_lens e))) (fun _ => eq_refl) (fun _ => eq_refl) _ _ _ _ L (Forall_nil _)) as [I1 [I2 [_ I4]]].
+    rewrite (mentions_nostar _ _ Es).
+    split; [|split; [|split; [|reflexivity]]].
+    + destruct (existsb (str_eqb p) (ke_names e)) eqn:Ein.
+      * apply existsb_str in Ein. destruct (I2 _ Ein) as [e1 [L1 Q]].
+        unfold RK, tbl_req_chunk. simpl. rewrite L1. f_equal.
+        destruct Q as [Q|[e0 Q]]; subst e1; reflexivity.
+      * assert (Hn : ~ In p (ke_names e)) by (intro X; apply existsb_str in X; congruence).
+        destruct acck as [[r l]|]; [|exact I]. unfold RK, tbl_req_chunk in *. simpl. rewrite Eac in HK.
+        rewrite (I1 _ Hn). rewrite app_nil_r. exact HK.
+    + destruct accc as [[t i]|]; [|exact I]. unfold RC, tbl_req_comp in *. simpl.
+      destruct (all_comp o); [exact HC|].
+      destruct (lookup p (tbl o)) as [e0|] eqn:L0; [|discriminate].
+      destruct (add_loop_keeps has_chunk (set_chunk_of (Build_chunkinfo (ke_rank e) (ke_lens e))) (mk_chunk (Build_chunkinfo (ke_rank e) (ke_lens e))) (fun _ => eq_refl) _ p_comp (fun _ => eq_refl) _ _ _ _ _ _ L L0) as [e' [L' F]].
+      rewrite L'. rewrite F. exact HC.
+    + unfold tbl_named. simpl. intro Hn. destruct (lookup p T) as [e1|] eqn:L1; [|discriminate].
+      destruct (I4 _ _ L1) as [[e2 L2]|Hin].
+      * left. rewrite app_nil_r in L2. rewrite L2. reflexivity.
+      * right. apply existsb_str. exact Hin.
+Qed.
+
+Lemma build_entries_invariant : forall es o o' p accc acck,
+  build_entries_from o es = Some o' -> RC o p accc -> RK o p acck ->
+  RC o' p (req_comp es p accc) /\ RK o' p (req_chunk es p acck) /\
+  (tbl_named o' p = true -> tbl_named o p = true \/ named es p = true) /\ threshold o' = threshold o.
+Proof.
+  induction es as [|[e|e] es IH]; intros o o' p accc acck H HC HK; simpl in H.
+  - inversion H; subst. simpl. auto.
+  - destruct (addcomp e o) as [o1|] eqn:A; [|discriminate].
+    destruct (addcomp_step _ _ _ p accc acck A HC HK) as [C1 [K1 [N1 T1]]].
+    destruct (IH _ _ p _ _ H C1 K1) as [C2 [K2 [N2 T2]]]. simpl.
+    split; [exact C2|]. split; [exact K2|]. split; [|congruence].
+    intro Hn. destruct (N2 Hn) as [X|X]; [|right; rewrite X; apply orb_true_r].
+    destruct (N1 X) as [Y|Y]; [left; exact Y | right; rewrite Y; reflexivity].
+  - destruct (addchunk e o) as [o1|] eqn:A; [|discriminate].
+    destruct (addchunk_step _ _ _ p accc acck A HC HK) as [K1 [C1 [N1 T1]]].
+    destruct (IH _ _ p _ _ H C1 K1) as [C2 [K2 [N2 T2]]]. simpl.
+    split; [exact C2|]. split; [exact K2|]. split; [|congruence].
+    intro Hn. destruct (N2 Hn) as [X|X]; [|right; rewrite X; apply orb_true_r].
+    destruct (N1 X) as [Y|Y]; [left; exact Y | right; rewrite Y; reflexivity].
+Qed.
+
+Lemma build_reflects_lemma : forall es o,
+  build_entries_from options_init es = Some o -> reflects o es (threshold o).
+Proof.
+  intros es o H. split; [reflexivity|]. intro p.
+  destruct (build_entries_invariant es options_init o p None None H I I) as [C [K [N _]]].
+  split; [|split].
+  - intros t i E. rewrite E in C. exact C.
+  - intros r l E. rewrite E in K. exact K.
+  - intro Hn. destruct (N Hn) as [X|X]; [vm_compute in X; discriminate | exact X].
+Qed.
+
+(** decide_total_and_requested at full strength: for the option table hrepack builds from any request list, every
+    successful layout decision meets the specification *)
+Lemma decide_total_and_requested_lemma : forall es o k p i l,
+  build_entries_from options_init es = Some o -> (k = KSds \/ k = KGr) -> o_rank i = rank_of k i ->
+  decide o k p i = Some l -> meets es (threshold o) k p i l = true.
+Proof.
+  intros es o k p i l H Hk Hr Hd. eapply decide_meets_spec_lemma; eauto. apply build_reflects_lemma. exact H.
+Qed.
